@@ -27,7 +27,7 @@ class Canon:
             if p is not None:
                 self.paths[p] = i
         self.own = set()
-        for o in world.objects:
+        for o in list(world.objects) + [h for h in getattr(world, "handle_objs", []) if h is not None]:
             self.own.add(id(o))
         self.harness = {}
         for i, r in enumerate(world.resources):
@@ -49,6 +49,8 @@ class Canon:
 
     def walk(self, o, ctx_file=None):
         t = type(o)
+        if t is int and o in self.own:
+            return ("id-of-own-object",)  # a raw id() of one of this world's collections (id-keyed bookkeeping)
         if o is None or t in (bool, int, float, bytes):
             return (t.__name__, o)
         if t is str:
